@@ -121,7 +121,7 @@ def _cost(prog, rep):
             r3.check(v[2][0] == ("call", "[]::len", (m.F,)), "ln-size", "the line-number cache is sized by fragments.len()", "", "", nontrivial=False)
         elif v[0] == "call" and v[1] == "Option::unwrap_or":
             cap["DEF"] = ("upvar", n)
-            want = ("call", "Option::unwrap_or", (("call", "Option::copied", (("call", "[]::last", (m.LW,)),)), ("float", "0.0")))
+            want = ("call", "Option::unwrap_or", (("call", "[]::last", (m.LW,)), ("float", "0.0")))
             r.check(v == want, "default-width", "the default line width is line_widths.last() else 0.0", describe(v, parent)[:100],
                     "the default line width is %s; expected line_widths.last().copied().unwrap_or(0.0)" % describe(v, parent)[:120])
         elif v[0] in ("call",) and v[1] in ("Vec::with_capacity", "Vec::new"):
@@ -135,7 +135,7 @@ def _cost(prog, rep):
     WS = ("call", "Fragment::whitespace_width", (fl,))
     P = ("call", "Fragment::penalty_width", (fl,))
     LNO = ("call", LN + "::get", (cap["LN"], I, MIN))
-    T = ("call", "f64::max", (("call", "Option::unwrap_or", (("call", "Option::copied", (("call", "[]::get", (cap["LW"], LNO)),)), cap["DEF"])), ("float", "1.0")))
+    T = ("call", "f64::max", (("call", "Option::unwrap_or", (("call", "[]::get", (cap["LW"], LNO)), cap["DEF"])), ("float", "1.0")))
     pen = lambda name: ("cast", "IntToFloat", ("field", cap["PEN"], name), "f64")
     pLW = poly(wj) - poly(wi) - poly(WS) + poly(P)
     pT = poly(T)
